@@ -1,5 +1,5 @@
 From Coq.Strings Require Import Byte String.
-From Coq Require Import List NArith Bool Lia.
+From Coq Require Import List Arith NArith Bool Lia.
 Import ListNotations.
 From V Require Import lib.Bytes spec.SrcText model.SrcTextParse.
 Open Scope N_scope.
@@ -97,4 +97,66 @@ Proof. vm_compute. repeat split. Qed.
 (* the guarded statement is not vacuous: a Latin-1 line with leading blanks *)
 Lemma srctext_nonvacuous : let T := bs "  " ++ [xc9] ++ bs "t" ++ [xe9; x85; xa0] ++ bs " 2024 " in
   in_frag T = true /\ no_byte_space_lead T = true /\ doc_code T = bs "<p>" ++ [xc9] ++ bs "t" ++ [xe9; x85; xa0] ++ bs " 2024 </p>".
+Proof. vm_compute. repeat split. Qed.
+
+(* ---- several lines ---- *)
+Lemma text_code_le T : (length (text_code T) <= length (text_spec T))%nat.
+Proof.
+  rewrite text_code_unfold. unfold text_spec. destruct (span ascii_ws T) as [w r] eqn:Es.
+  destruct (span_ascii_prefix T w r Es) as [w' [H1 _]]. rewrite H1. cbn [snd]. apply span_snd_length.
+Qed.
+
+Lemma text_code_lt T : in_frag T = true -> no_byte_space_lead T = false -> (length (text_code T) < length (text_spec T))%nat.
+Proof.
+  intros Hf Hg. pose proof (text_code_le T) as Hle. pose proof (text_differs T Hf Hg) as Hd.
+  (* text_code T is what is left of text_spec T after a further run: equal length would make them equal *)
+  rewrite text_code_unfold in *. unfold text_spec in *. destruct (span ascii_ws T) as [w r] eqn:Es.
+  destruct (span_ascii_prefix T w r Es) as [w' [H1 _]]. rewrite H1 in *. cbn [snd] in *.
+  assert (Hx : forall s, length (snd (span code_ws s)) = length s -> snd (span code_ws s) = s).
+  { clear. intros s. destruct s as [|c s]; [reflexivity|]. cbn [span]. destruct (code_ws c); [|reflexivity].
+    pose proof (span_snd_length code_ws s) as Hl. destruct (span code_ws s) as [w2 r2]. cbn [snd length] in *. lia. }
+  destruct (Nat.eq_dec (length (snd (span code_ws r))) (length r)) as [E|E]; [exfalso; apply Hd, Hx, E|lia].
+Qed.
+
+Lemma join_sp_length_le (f g : bytes -> bytes) Ls : (forall L, length (f L) <= length (g L))%nat ->
+  (length (join_sp (map f Ls)) <= length (join_sp (map g Ls)))%nat.
+Proof.
+  intros H. induction Ls as [|L Ls IH]; [cbn; lia|].
+  cbn [map join_sp]. destruct Ls as [|L2 Ls]; [apply H|].
+  cbn [map] in *. rewrite !app_length. specialize (H L). cbn [length] in *. lia.
+Qed.
+
+Lemma join_sp_length_lt (f g : bytes -> bytes) Ls : (forall L, length (f L) <= length (g L))%nat ->
+  (exists L, In L Ls /\ length (f L) < length (g L))%nat ->
+  (length (join_sp (map f Ls)) < length (join_sp (map g Ls)))%nat.
+Proof.
+  intros H [B [Hin Hlt]]. induction Ls as [|L Ls IH]; [destruct Hin|].
+  cbn [map join_sp]. destruct Ls as [|L2 Ls].
+  - destruct Hin as [->|[]]. exact Hlt.
+  - pose proof (join_sp_length_le f g (L2 :: Ls) H) as Hle. cbn [map] in *. rewrite !app_length. cbn [length].
+    destruct Hin as [->|Hin].
+    + lia.
+    + specialize (IH Hin). specialize (H L). lia.
+Qed.
+
+Lemma lines_agree Ls : (forall L, In L Ls -> no_byte_space_lead L = true) -> doc_code_lines Ls = doc_spec_lines Ls.
+Proof.
+  intros H. unfold doc_code_lines, doc_spec_lines, lines_code, lines_spec. do 2 f_equal.
+  f_equal. apply map_ext_in. intros L Hin. apply text_agree, H, Hin.
+Qed.
+
+Lemma lines_exact Ls : (forall L, In L Ls -> in_frag L = true) ->
+  (doc_code_lines Ls = doc_spec_lines Ls <-> forall L, In L Ls -> no_byte_space_lead L = true).
+Proof.
+  intros Hf. split; [|apply lines_agree].
+  intros E L Hin. destruct (no_byte_space_lead L) eqn:G; [reflexivity|exfalso].
+  unfold doc_code_lines, doc_spec_lines, lines_code, lines_spec in E.
+  apply app_inv_head in E. apply app_inv_tail in E.
+  pose proof (join_sp_length_lt text_code text_spec Ls text_code_le
+                (ex_intro _ L (conj Hin (text_code_lt L (Hf L Hin) G)))) as Hlt.
+  rewrite E in Hlt. lia.
+Qed.
+
+Lemma srctext_lines_witness : let Ls := [bs "  A la carte  "; [x09; xa0] ++ bs "5 EUR"; bs "Fin"] in
+  forallb in_frag Ls = true /\ doc_spec_lines Ls = bs "<p>A la carte   " ++ [xa0] ++ bs "5 EUR Fin</p>" /\ doc_code_lines Ls = bs "<p>A la carte   5 EUR Fin</p>".
 Proof. vm_compute. repeat split. Qed.
